@@ -39,6 +39,23 @@ theorem C10_fd_live_during_dispatch (acts : List Act) (s : S) (hall : acts.all g
   simp only [Good] at hg
   grind
 
+/-- **C10_token_returned** (no connection is stalled by a token nobody holds): the slot's token is taken (`state = 2`)
+only while somebody is inside the section it protects – the poller running the callbacks of a dispatch, or the owner's own
+`Release()` between `do()` and `done()`.  At quiescence (no dispatch and no call in progress) the state is never 2, so the
+poller's `do()` on the next event of a live connection succeeds.  Holds for every interleaving of the owner's Release calls with
+fetch / dispatch / close / reuse. -/
+theorem C10_token_returned (acts : List Act) (s : S) (hall : acts.all guardedAct = true) (hr : run init acts = some s) :
+    (s.st = 2 → s.pollerHolds = true ∨ s.ownerHolds = true) ∧
+    (s.pollerHolds = false → s.ownerHolds = false → s.registered = true → s.st = 1) := by
+  have hg := good_run acts init s good_init hall hr
+  simp only [Good] at hg
+  grind
+
+/-- non-vacuity: the owner's Release takes the token while an event is fetched: the dispatch skips it, the token comes back,
+the (level-triggered) event is fetched and dispatched in the next batch -/
+example : (run init [.alloc, .register, .fetch, .liveRelease, .doEv, .liveDone, .endBatch, .fetch, .doEv, .doneEv, .endBatch]).map
+    (fun s => (s.st, s.ownerHolds, s.pollerHolds, s.bad)) = some (1, false, false, false) := by decide
+
 /-- non-vacuity: the close of the owner overlaps a dispatch in progress; the descriptor is closed after the dispatch ended -/
 example : (run init [.alloc, .register, .fetch, .doEv, .detach, .doneEv, .unused, .reset, .freeable, .closeFd 1, .endBatch]).map
     (fun s => (s.fdOpen, s.bad)) = some (false, false) := by decide
